@@ -3,3 +3,4 @@ import Cinco.Props.C07
 import Cinco.Props.C08
 import Cinco.Props.C09
 import Cinco.Props.C18
+import Cinco.Props.C19
